@@ -115,8 +115,9 @@ def announce_route(
             # Register flush callbacks for connected peers (if sync mode)
             flush_events = register_flush_callbacks(peers, reactor, sync_mode)
 
+            # Validate every route of the command before announcing any of them: a command answered with an
+            # error must not have changed a RIB (the routes which preceded the invalid one used to stay)
             for route in routes:
-                # Validate route before announcing (early feedback)
                 error = validate_announce(route)
                 if error:
                     peer_list = ', '.join(peers) if peers else 'all peers'
@@ -124,6 +125,7 @@ def announce_route(
                     await reactor.processes.answer_error(service, error)
                     return
 
+            for route in routes:
                 reactor.configuration.announce_route(peers, route)
                 peer_list = ', '.join(peers) if peers else 'all peers'
                 self.log_message(f'route added to {peer_list} : {route.extensive()}')
